@@ -53,6 +53,7 @@ var ExtraJSON = []Seed{
 	{"ws", " {\n\t\"a\" :\r\n [ ] }\n"},
 	{"dup", `{"a":1,"a":2}`},
 	{"tmpl", `{"a":"${b} %{if c}x%{endif}"}`},
+	{"key-tmpl", `{"a":{"${b}":1,"k":"${c}"}}`},
 	{"tmpl-unterminated", `{"a":"x${"}`},
 	{"tmpl-badutf8", "{\"a\":\"\xff${\"}"},
 	{"tmpl-badutf8-expr", "[\"\xff\xfe${b +}\"]"},
